@@ -126,14 +126,29 @@ func (b *builderOptions) Build() (*Biscuit, error) {
 	if v := b.rootKeyID; v != nil {
 		opts = append(opts, WithRootKeyID(*v))
 	}
+
+	// work on copies so that the builder can be used (and built) again
+	// without affecting the tokens it already produced
+	baseSymbols := b.symbols.Clone()
+	blockSymbols := baseSymbols.SplitOff(b.symbolsStart)
+
+	facts := make(datalog.FactSet, len(*b.facts))
+	copy(facts, *b.facts)
+
+	rules := make([]datalog.Rule, len(b.rules))
+	copy(rules, b.rules)
+
+	checks := make([]datalog.Check, len(b.checks))
+	copy(checks, b.checks)
+
 	return newBiscuit(
 		b.rootKey,
-		b.symbols,
+		baseSymbols,
 		&Block{
-			symbols: b.symbols.SplitOff(b.symbolsStart),
-			facts:   b.facts,
-			rules:   b.rules,
-			checks:  b.checks,
+			symbols: blockSymbols,
+			facts:   &facts,
+			rules:   rules,
+			checks:  checks,
 			context: b.context,
 			version: MaxSchemaVersion,
 		},
